@@ -15,6 +15,18 @@ package concurrency
 // len(c.closers) (closer.go:165) without mngr.lock (D2); with the declaration its guard:read#0 fails at closer.go:155 and,
 // being assumed afterwards, makes the other ~180 obligations of that function vacuous (cover:loop0/1 fail). Consequence:
 // an unlocked RE-READ of r.runners after Run's unlock is not flagged by a guard obligation (see REPORT.md 4/6).
+// Pass 3: ESTABLISHED by NewRunnerCloserManager (no longer assumed of a new manager): the [chans] invariant (mngr != nil, three
+// pairwise distinct channels: [C12.cnew.inv]), the chdone preconditions of Run / Close (the three channels are made by the
+// constructor and open: [C12.cnew.chan.fresh] [C12.cnew.open]; all flags clear: [C12.cnew.flags]), "the inner manager holds
+// exactly the given runners" ([C12.cnew.runners]), "no grace period => no closer, no fatal action" ([C12.cnew.nograce]),
+// "grace period => exactly one closer, the waiter NewRunnerCloserManager$2, non-nil, and a fatal action"
+// ([C12.cnew.waiter*] [C12.cnew.grace] through [C12.addcloser.single]); the waiter's own preconditions hold when it is
+// registered ([C12.cnew.waiter.pre]). RunnerCloserManager.Add: [C12.cadd.*]. AddCloser: one closer per accepted argument,
+// one error per unsupported one, earlier closers kept ([C12.addcloser.appendone/count/keeps/appends]); adapters [C12.adapter.*].
+// REMAINING as preconditions of Run / Close (per-call facts, kept by composition, not by a machine-checked invariant):
+// inv(c) and `running == 0 ==> stopped / closeFatalShutdown open`, `closed == 0 ==> closeCh open` (true of a new manager by the
+// constructor; kept because only the CAS winners close: [C12.chan.closeonce], and no function stores to the channel fields);
+// no nil runner / closer (a user may register a nil func value through Add / AddCloser: misuse, not excluded by the code).
 //@ assume-text C12 monitor view without guard obligations: RunnerManager.runners / RunnerCloserManager.closers are not declared lock-protected (closer.go:155,165 read them unlocked, D2); fields are taken as unchanged between a function's entry and its critical section, the facts used across that gap (no nil element) are preserved by every writer ([C12.add.nonnil]); RunnerCloserManager.Run additionally assumes no Add / AddCloser changes them between its unlocked reads and its critical section
 //@ assume-text C12 channel semantics: a receive from a channel nobody sends on (RunnerCloserManager.stopped: [C12.chan.nosend], [C12.wait.stopped]) completes only after the channel was closed (at every recv assume chdone[arg0] in WaitUntilShutdown); closing a closed channel panics ([C12.chan.closeonce] asserted before every close); a timer channel (element type time.Time) is not the manager's chan struct{} closeFatalShutdown
 //@ assume-text C12 user callbacks: a Runner and a closer touch no memory of the managers (functype Runner: modifies nothing; opt go=ignore in RunnerCloserManager.Run); nil runners / closers are excluded by precondition (a nil function value panics in its goroutine)
@@ -318,3 +330,99 @@ package concurrency
 //@   ensures [C12.addcloser.onesection] nlock <= 1
 //@   loop 0 invariant [C12.addcloser.decided] c == old(c) && heldw(c.mngr.lock) && decided && !closingseen && nlock == 1
 //@   loop 0 invariant -1 <= rangeindex && rangeindex < len(closers)
+//@   ghost nacc int
+//@   ghost nrej int
+//@   ghost len0 int
+//@   at entry ghost nacc = 0
+//@   at entry ghost nrej = 0
+//@   at entry ghost len0 = len(c.closers)
+//@   at every store closers assert [C12.addcloser.appendone] len(arg0) == len0 + nacc + 1
+//@   at every store closers ghost nacc = nacc + 1
+//@   at every call Errorf ghost nrej = nrej + 1
+//@   loop 0 invariant [C12.addcloser.count] 0 <= nacc && 0 <= nrej && nacc + nrej == rangeindex + 1 && len(c.closers) == len0 + nacc && len(errs) == nrej && len0 == old(len(c.closers))
+//@   loop 0 invariant [C12.addcloser.keeps] forall j :: 0 <= j && j < len0 ==> c.closers[j] == old(c.closers[j])
+// one closer appended per accepted argument, one error per unsupported argument, earlier closers kept
+//@   ensures [C12.addcloser.appends] !closingseen ==> (nacc + nrej == len(closers) && len(c.closers) == old(len(c.closers)) + nacc && (forall j :: 0 <= j && j < old(len(c.closers)) ==> c.closers[j] == old(c.closers[j])))
+// what a caller can use (no callee ghosts): a single plain func() offered to a manager that is not closing is
+// registered as exactly one new, non-nil closer, the adapter AddCloser$2
+//@   ensures [C12.addcloser.single] (old(c.closing.v) == 0 && len(closers) == 1 && old(closers[0]).dyntype == box(0, "func()").dyntype) ==> (len(c.closers) == old(len(c.closers)) + 1 && c.closers[len(c.closers) - 1] != nil && (forall j :: 0 <= j && j < old(len(c.closers)) ==> c.closers[j] == old(c.closers[j])))
+//@   loop 0 invariant [C12.addcloser.single.inv] (len(closers) == 1 && closers[0].dyntype == box(0, "func()").dyntype && rangeindex >= 0) ==> (nacc == 1 && c.closers[len(c.closers) - 1] != nil)
+//@   loop 0 invariant forall j :: 0 <= j && j < len(closers) ==> closers[j] == old(closers[j])
+//@   loop 0 invariant (fresh(errs) || cap(errs) == 0) && (fresh(c.closers) || (c.closers.base == old(c.closers.base) && c.closers.off == old(c.closers.off) && cap(c.closers) == old(cap(c.closers))))
+//@   ensures c.closing.v == old(c.closing.v) && nolocks()
+//@   modifies c.closers, c.closers[0:cap(c.closers)], c.mngr.lk
+
+// the two adapters: the wrapped function is called exactly once; its result is passed on / nil is returned
+//@ func (*RunnerCloserManager).AddCloser$1
+//@   tags C12
+//@   requires v != nil
+//@   ghost ncall int
+//@   ghost cr iface
+//@   at entry ghost ncall = 0
+//@   at every before call funcvalue assert [C12.adapter.ctx.once] ncall == 0 && arg0.neverends
+//@   at every call funcvalue ghost ncall = ncall + 1
+//@   at every call funcvalue ghost cr = res0
+//@   ensures [C12.adapter.ctx.result] ncall == 1 && result == cr
+//@ func (*RunnerCloserManager).AddCloser$2
+//@   tags C12
+//@   requires v != nil
+//@   ghost ncall int
+//@   at entry ghost ncall = 0
+//@   at every before call funcvalue assert [C12.adapter.plain.once] ncall == 0
+//@   at every call funcvalue ghost ncall = ncall + 1
+//@   ensures [C12.adapter.plain.result] ncall == 1 && result == nil
+
+// RunnerCloserManager.Add: rejected iff `running` was observed set, then nothing is appended and the inner manager is not
+// called; otherwise exactly one call of mngr.Add with the same arguments, whose result is the result (its effect is
+// mngr.Add's: [C12.add.*]). A manager whose Run (or never-ran Close) won the CAS rejects; the inner Add decides again
+// under its lock against the inner `running`.
+//@ func (*RunnerCloserManager).Add
+//@   tags C12
+//@   requires c != nil && c.mngr != nil
+//@   requires forall j :: 0 <= j && j < len(runner) ==> runner[j] != nil
+//@   requires forall j :: 0 <= j && j < len(c.mngr.runners) ==> c.mngr.runners[j] != nil
+//@   modifies c.mngr.runners, c.mngr.runners[0:cap(c.mngr.runners)], c.mngr.lk
+//@   ghost seen bool
+//@   ghost ncall int
+//@   ghost mres iface
+//@   at entry ghost seen = false
+//@   at entry ghost ncall = 0
+//@   at call Load#0 ghost seen = res0
+//@   at every before call Add assert [C12.cadd.delegates] !seen && ncall == 0 && arg0 == c.mngr && arg1 == runner && nolocks()
+//@   at every call Add ghost ncall = ncall + 1
+//@   at every call Add ghost mres = res0
+//@   ensures [C12.cadd.observed] seen <==> old(c.running.v) != 0
+//@   ensures [C12.cadd.rejects] seen ==> (result == ErrManagerAlreadyStarted && ncall == 0 && c.mngr.runners == old(c.mngr.runners))
+//@   ensures [C12.cadd.delegated] !seen ==> (ncall == 1 && result == mres)
+//@   ensures nolocks()
+
+// NewRunnerCloserManager ESTABLISHES what Run / Close require of a manager: the three channels are made here, are new
+// (not yet shared, hence open: the only place where !chdone is introduced) and pairwise distinct ([chans] invariant);
+// no flag is set; the inner manager holds exactly the given runners; without a grace period nothing is registered
+// and there is no fatal-shutdown action; with one, exactly one closer is registered - the waiter
+// NewRunnerCloserManager$2, through AddCloser ([C12.addcloser.single]) - and the action is NewRunnerCloserManager$1.
+//@ func NewRunnerCloserManager
+//@   tags C12
+//@   requires log != nil
+//@   ghost nreg int
+//@   at entry ghost nreg = 0
+//@   at store stopped#0 assert [C12.cnew.chan.fresh] fresh(arg0)
+//@   at store stopped#0 ghost chdone = update(chdone, arg0, false)
+//@   at store closeCh#0 assert [C12.cnew.chan.fresh] fresh(arg0)
+//@   at store closeCh#0 ghost chdone = update(chdone, arg0, false)
+//@   at store closeFatalShutdown#0 assert [C12.cnew.chan.fresh] fresh(arg0)
+//@   at store closeFatalShutdown#0 ghost chdone = update(chdone, arg0, false)
+//@   at every before close assert [C12.chan.closeonce] false
+//@   at every before send assert [C12.chan.nosend] false
+//@   at every before call AddCloser assert [C12.cnew.waiter.once] gracePeriod != nil && nreg == 0 && arg0 == c && len(arg1) == 1
+//@   at every before call AddCloser assert [C12.cnew.waiter.type] arg1[0].dyntype == box(0, "func()").dyntype
+//@   at every before call AddCloser assert [C12.cnew.waiter] isfunc(arg1[0].payload, "NewRunnerCloserManager$2")
+//@   at every before call AddCloser assert [C12.cnew.waiter.pre] c.clock != nil && c.fatalShutdownFn != nil && c.closing.v == 0 && len(c.closers) == 0
+//@   at every call AddCloser ghost nreg = nreg + 1
+//@   ensures [C12.cnew.inv] result != nil && fresh(result) && inv(result)
+//@   ensures [C12.cnew.open] !chdone[result.stopped] && !chdone[result.closeCh] && !chdone[result.closeFatalShutdown]
+//@   ensures [C12.cnew.flags] result.running.v == 0 && result.closing.v == 0 && result.closed.v == 0 && result.retErr == nil
+//@   ensures [C12.cnew.runners] result.mngr != nil && fresh(result.mngr) && result.mngr.runners == runners && result.mngr.running.v == 0 && result.clock != nil
+//@   ensures [C12.cnew.nograce] gracePeriod == nil ==> (nreg == 0 && len(result.closers) == 0 && result.fatalShutdownFn == nil)
+//@   ensures [C12.cnew.grace] gracePeriod != nil ==> (nreg == 1 && len(result.closers) == 1 && result.closers[0] != nil && result.fatalShutdownFn != nil && isfunc(result.fatalShutdownFn, "NewRunnerCloserManager$1"))
+//@   ensures nolocks()
